@@ -17,6 +17,8 @@ import (
 	"github.com/apache/skywalking-banyandb/banyand/measure"
 	"github.com/apache/skywalking-banyandb/banyand/queue"
 	"github.com/apache/skywalking-banyandb/banyand/queue/sub"
+	"github.com/apache/skywalking-banyandb/banyand/stream"
+	"github.com/apache/skywalking-banyandb/banyand/trace"
 	"github.com/apache/skywalking-banyandb/pkg/bus"
 	"github.com/apache/skywalking-banyandb/pkg/fs"
 )
@@ -31,7 +33,8 @@ type nodeSim struct {
 	name   string
 	script string
 	calls  int
-	node   *measure.VerifC17Node
+	node   realNode
+	topic  bus.Topic
 	srv    clusterv1.ChunkedSyncServiceServer
 }
 
@@ -69,7 +72,7 @@ func (c *simClient) SyncStreamingParts(_ context.Context, parts []queue.Streamin
 		}
 		return &queue.SyncResult{Success: false, PartsCount: uint32(len(parts)), FailedParts: failed}, nil
 	}
-	topic := data.TopicMeasurePartSync.String()
+	topic := c.n.topic.String()
 	chunks, completion, err := referenceChunks(parts, c.chunkSize, topic)
 	if err != nil {
 		return nil, err
@@ -132,7 +135,7 @@ func handleSnd(f []string) string {
 		if i < len(scripts) && scripts[i] != "" && scripts[i] != "-" {
 			sc = scripts[i]
 		}
-		ns := &nodeSim{name: name, script: sc, node: node,
+		ns := &nodeSim{name: name, script: sc, node: node, topic: data.TopicMeasurePartSync,
 			srv: sub.VerifC17NewServer(true, 10, 5, map[bus.Topic]queue.ChunkedSyncHandler{data.TopicMeasurePartSync: node.Handler()})}
 		tier2.nodes[name] = ns
 		names = append(names, name)
@@ -214,11 +217,99 @@ func handleSnd(f []string) string {
 		if have != len(digests) {
 			delivered = false
 		}
-		nodeOut = append(nodeOut, fmt.Sprintf("%s=%d/%d/%d/%d/%d", ns.name, have, len(pds), junk, len(ns.node.SnapshotParts()), ns.node.VerifC17RowCount()))
+		snapParts, snapRows := ns.node.Snapshot()
+		nodeOut = append(nodeOut, fmt.Sprintf("%s=%d/%d/%d/%d/%d", ns.name, have, len(pds), junk, snapParts, snapRows))
 	}
 	if len(nodeOut) == 0 {
 		nodeOut = []string{"-"}
 	}
 	return fmt.Sprintf("parts=%d left=%d failed=%d delivered=%s ret=%s rows=%d queued=%d leftrows=%d nodes=%s", len(before), len(after), len(failedDir),
 		drv01(delivered), ret, rows, queued, lia.QueuedRows(), strings.Join(nodeOut, ","))
+}
+
+// syn.<engine>-<kind> nodes scripts quota seed series points        engine = str | trc
+// The stream / trace syncer's real delivery round for one flushed part (stream: executeSyncWithRetry, trace:
+// executeSyncOperation; each engine has its own copy of the retry glue around storage.FailedPartsHandler) against
+// scripted data nodes running the engine's real part-sync handler. `left=0` means the round returned nil, i.e.
+// syncSnapshot goes on to remove the part from the liaison queue.
+func handleSyn(f []string) string {
+	if len(f) != 7 {
+		return "bad-op"
+	}
+	_, ek, _ := strings.Cut(f[0], ".")
+	engine, _, _ := strings.Cut(ek, "-")
+	topicT, open, build, ok := engineOf(engine)
+	if !ok || (engine != "str" && engine != "trc") {
+		return "bad-op"
+	}
+	nn := atoi(f[1])
+	scripts := strings.Split(f[2], ",")
+	quota, seed, series, points := atoi(f[3]), atoi(f[4]), atoi(f[5]), atoi(f[6])
+	dir := scratchDir()
+	defer os.RemoveAll(dir)
+	tier2 := &fakeTier2{nodes: map[string]*nodeSim{}}
+	var names []string
+	var sims []*nodeSim
+	for i := 0; i < nn; i++ {
+		name := fmt.Sprintf("n%d", i)
+		node, err := open(filepath.Join(dir, name))
+		if err != nil {
+			return "OPENERR " + err.Error()
+		}
+		defer node.Close()
+		sc := "S"
+		if i < len(scripts) && scripts[i] != "" && scripts[i] != "-" {
+			sc = scripts[i]
+		}
+		ns := &nodeSim{name: name, script: sc, node: node, topic: topicT,
+			srv: sub.VerifC17NewServer(true, 10, 5, map[bus.Topic]queue.ChunkedSyncHandler{topicT: node.Handler()})}
+		tier2.nodes[name] = ns
+		names = append(names, name)
+		sims = append(sims, ns)
+	}
+	senderRoot := filepath.Join(dir, "liaison")
+	if err := os.MkdirAll(senderRoot, 0o755); err != nil {
+		panic(err)
+	}
+	sp := build(senderRoot, 7, int64(seed), series, points)
+	defer sp.Close()
+	want := dirDigest(sp.PartDir())
+	var q uint64
+	if quota > 0 {
+		q = 1
+	}
+	var failedDir []string
+	var serr error
+	switch p := sp.(type) {
+	case *stream.VerifC17SenderPart:
+		failedDir, serr = p.VerifC17SyncWithRetry(c17Group, tier2, names, q)
+	case *trace.VerifC17SenderPart:
+		failedDir, serr = p.VerifC17SyncWithRetry(c17Group, tier2, names, q)
+	default:
+		return "bad-op"
+	}
+	ret, left := "ok", 0
+	if serr != nil {
+		ret, left = "err", 1
+	}
+	delivered := nn > 0
+	var nodeOut []string
+	for _, ns := range sims {
+		have, junk := 0, 0
+		pds := partDirs(ns.node.Root())
+		for _, pd := range pds {
+			if sameDigest(dirDigest(pd), want) {
+				have = 1
+			} else {
+				junk++
+			}
+		}
+		if have != 1 {
+			delivered = false
+		}
+		snapParts, snapRows := ns.node.Snapshot()
+		nodeOut = append(nodeOut, fmt.Sprintf("%s=%d/%d/%d/%d/%d", ns.name, have, len(pds), junk, snapParts, snapRows))
+	}
+	return fmt.Sprintf("parts=1 left=%d failed=%d delivered=%s ret=%s rows=%d queued=%d leftrows=%d nodes=%s", left, len(failedDir),
+		drv01(delivered), ret, sp.TotalCount(), sp.TotalCount(), uint64(left)*sp.TotalCount(), strings.Join(nodeOut, ","))
 }
